@@ -5,7 +5,6 @@ from typing import Any, Callable
 from . import errno
 from pycoin.coins.SolutionChecker import ScriptError
 
-from .flags import VERIFY_MINIMALDATA
 
 
 def do_OP_VERIFY(vm: Any) -> None:
@@ -211,11 +210,8 @@ def do_OP_NOT(vm: Any) -> None:
 
 
 def do_OP_0NOTEQUAL(vm: Any) -> None:
-    vm.push_int(
-        vm.bool_from_script_bytes(
-            vm.pop(), require_minimal=vm.flags & VERIFY_MINIMALDATA
-        )
-    )
+    # a numeric opcode like OP_NOT: 4-byte operand, minimal encoding when the flag asks for it
+    vm.append(vm.bool_to_script_bytes(pop_check_bounds(vm) != 0))
 
 
 """
